@@ -221,13 +221,13 @@ def floatText (q : Nat) (suffix : String) : String :=
 
 def minusPiece : Piece := .t (.p .Minus) "-"
 
-/-- a float literal: the token is the non-negative literal; a set sign bit prints a `-` in front — except on zero,
-where the whole-value arms (`v == v as i64 as f`) ignore the sign and print `0.0` -/
+/-- a float literal: the token is the non-negative literal; a set sign bit prints a `-` in front (also on zero,
+since 1157dad: `-0.0`, `-0.0f`, `-0.0h`, `-0.0L`) -/
 def floatPieces (l : Lit) (expBits manBits : Nat) (suffix : String) : Option (List Piece) :=
   match eighths? expBits manBits l.mag with
   | some q =>
     let tok : Piece := .t (.lit { l with neg := false }) (floatText q suffix)
-    some (if l.neg && q != 0 then [minusPiece, tok] else [tok])
+    some (if l.neg then [minusPiece, tok] else [tok])
   | none => none
 
 /-- pieces of a literal; `none` = outside the modelled subset (strings, non-dyadic or large floats, inf, NaN).
